@@ -61,7 +61,7 @@ theorem get_iff_mem (fs : Fs) (hwf : WF fs) (q : CPath) (e : Entry) (hq : q ≠ 
 /-- where everything is after a subtree has been moved -/
 theorem moveTree_get_tree (fs : Fs) (hwf : WF fs) (pf pt : CPath) (ef : Entry)
     (hpf : fs.get pf = some ef) (hpfne : pf ≠ []) (hnp : ¬ pf <+: pt)
-    (hleafpt : Leaf fs pt) (hptne : pt ≠ []) (hparent : Present fs pt.dropLast) (hname : ∀ c ∈ pt, IsName c)
+    (hleafpt : Leaf fs pt) (hptne : pt ≠ []) (hparent : Present fs pt.dropLast) (hname : ∀ c ∈ pt, KName c)
     (q : CPath) :
     (fs.moveTree pf pt).get q =
       if pt <+: q then fs.get (pf ++ q.drop pt.length) else if pf <+: q then none else fs.get q := by
@@ -142,7 +142,7 @@ structure MoveOk (fs : Fs) (pf pt : CPath) (ef : Entry) : Prop where
   leaf : Leaf fs pt
   dstne : pt ≠ []
   parent : Present fs pt.dropLast
-  names : ∀ c ∈ pt, IsName c
+  names : ∀ c ∈ pt, KName c
 
 /-- a successful rename(2) either leaves the world as it is (source and destination are the same entry) or
     moves the subtree of the source to a destination below an existing directory -/
